@@ -7,7 +7,7 @@
    shared inputs, the race detector). *)
 From V.lib Require Import Base.
 From Coq Require Import String.
-From V.c20 Require Import C20Model C20Facts C20PkgVars C20Reach C20Alias C20AliasAudit C20SchedProofs C20ApiProofs C20FactsProofs C20ReachProofs C20AliasProofs.
+From V.c20 Require Import C20Model C20Facts C20PkgVars C20Reach C20Alias C20AliasAudit C20SchedProofs C20ApiProofs C20FactsProofs C20ReachProofs C20AliasProofs C20LazyProofs.
 
 (* if every op of goroutine t writes only cells of t and reads only cells of t or shared read-only
    locations, then EVERY interleaving is race-free, gives each goroutine its sequential result and
@@ -115,6 +115,49 @@ Example C20_inplace_guard_instance :
   inplace_ok 1 [(2%nat, Input 4)] (ADecryptWith 2 (SObj 1)) = false /\
   inplace_ok 1 [(2%nat, ownp 1 2)] (ADecryptWith 2 (SObj 1)) = true.
 Proof. repeat split. Qed.
+
+(* the lazy-mdat path of mp4/mdat.go (DecodeFile with DecModeLazyMdat, then MdatBox.ReadData through a ReadSeeker of the
+   goroutine's own over the shared bytes).  After EVERY program prefix p of every goroutine, for every source (a shared
+   input included) and all object ids: both operations satisfy the hypothesis of C20_schedule_independence with no guard,
+   write no shared input, the bytes read are the goroutine's own, and every in-place operation of the table applied to them
+   is allowed by the guard, local and writes no input.  No hypothesis: st_ok is proved as an invariant of the table. *)
+Theorem C20_lazy_path_private :
+  forall (t : thread) (p : list api) (s : src) (o d : nat),
+    let st := final_state t [] p in
+    let st1 := api_next t st (ADecodeLazy s o) in
+    let st2 := lazy_st t st s o d in
+    local t (api_op t st (ADecodeLazy s o)) = true /\
+    local t (api_op t st1 (AReadData o s d)) = true /\
+    input_ids (writes (api_op t st (ADecodeLazy s o))) = [] /\
+    input_ids (writes (api_op t st1 (AReadData o s d))) = [] /\
+    own t (pl t st2 d) = true /\
+    (forall a, kind_inplace (kind_of a) = true -> api_target a = d ->
+               inplace_ok t st2 a = true /\ local t (api_op t st2 a) = true /\
+               input_ids (writes (api_op t st2 a)) = []).
+Proof. exact lazy_path_private_reachable. Qed.
+Print Assumptions C20_lazy_path_private.
+
+(* the other branch of MdatBox.ReadData (mdat in memory: the result is m.Data[a:b:b]): after DecodeFileSR of a shared input
+   the bytes read are a view of that input in every state; ReadData itself writes nothing, but every in-place operation on
+   its result fails the guard and writes the input (same class as F1-F9) *)
+Theorem C20_read_data_in_memory_view :
+  forall (t : thread) (st : astate) (i : nat) (s : src) (o d : nat),
+    let st2 := api_next t (api_next t st (ADecodeSR (SIn i) o)) (AReadData o s d) in
+    pl t st2 d = Input i /\
+    input_ids (writes (api_op t (api_next t st (ADecodeSR (SIn i) o)) (AReadData o s d))) = [] /\
+    (forall a, kind_inplace (kind_of a) = true -> api_target a = d ->
+               inplace_ok t st2 a = false /\ mem (Input i) (writes (api_op t st2 a)) = true).
+Proof. exact read_data_in_memory_view. Qed.
+Print Assumptions C20_read_data_in_memory_view.
+
+Example C20_lazy_instance :
+  pl 2 (final_state 2 [] lazy_ex_prefix) 6 = Input 3 /\
+  pl 2 (lazy_st 2 (final_state 2 [] lazy_ex_prefix) (SIn 3) 0 1) 1 = ownp 2 0 /\
+  kind_inplace (kind_of (AToByteStream 1)) = true /\ api_target (AToByteStream 1) = 1%nat /\
+  prog_safe 2 [] (lazy_ex_prefix ++ [ADecodeLazy (SIn 3) 0; AReadData 0 (SIn 3) 1; AToByteStream 1; ADecryptWith 1 (SIn 7)]) = true /\
+  prog_safe 2 [] (lazy_ex_prefix ++ [ADecodeSR (SIn 3) 0; AReadData 0 (SIn 3) 1; AToByteStream 1]) = false /\
+  reader_only [ADecodeLazy (SIn 3) 0; AReadData 0 (SIn 3) 1; AToByteStream 1] = true.
+Proof. exact lazy_instance. Qed.
 
 (* the footprint table: Reader-path programs, and SliceReader programs whose in-place operations
    only touch payloads the goroutine owns, satisfy the hypothesis of C20_schedule_independence *)
